@@ -140,6 +140,7 @@ struct Slot {
     out: String,
     last_marker: String,
     last_change: Instant,
+    cpu_at_change: f64,
     serial: usize,
     /// indices of this range that were abandoned as outside the proviso (the range is re-run without them)
     skip: Vec<u64>,
@@ -177,7 +178,7 @@ fn spawn_shard_skipping(plan: &RunPlan, work: &str, serial: usize, from: u64, to
     }
     cmd.stdin(Stdio::null()).stdout(Stdio::null()).stderr(Stdio::null());
     let child = cmd.spawn().expect("spawn shard");
-    Slot { child, from, to, cur, out, last_marker: String::new(), last_change: Instant::now(), serial, skip }
+    Slot { child, from, to, cur, out, last_marker: String::new(), last_change: Instant::now(), cpu_at_change: 0.0, serial, skip }
 }
 
 fn read_marker(path: &str) -> String {
@@ -194,6 +195,28 @@ fn hexset(j: Option<&Json>, into: &mut HashSet<u64>) {
                 }
             }
         }
+    }
+}
+
+/// CPU seconds (user + system) a child process has used so far, from /proc. Timeouts are counted
+/// in the child's own CPU time, so that a loaded machine (many checks at once) does not turn a slow
+/// case into a "hang"; a generous wall-clock cap catches a child that is blocked without using CPU.
+fn cpu_secs(pid: u32) -> Option<f64> {
+    let s = std::fs::read_to_string(format!("/proc/{}/stat", pid)).ok()?;
+    // fields after the command name (which may contain spaces): ... utime(14) stime(15)
+    let rest = &s[s.rfind(')')? + 1..];
+    let f: Vec<&str> = rest.split_whitespace().collect();
+    let utime: f64 = f.get(11)?.parse().ok()?;
+    let stime: f64 = f.get(12)?.parse().ok()?;
+    Some((utime + stime) / 100.0)
+}
+
+/// has the child used up `allow` seconds of its own CPU time (or 20 times that in wall-clock)?
+fn overdue(pid: u32, cpu_at_start: f64, started: Instant, allow: f64) -> bool {
+    let wall = started.elapsed().as_secs_f64();
+    match cpu_secs(pid) {
+        Some(c) => (c - cpu_at_start > allow && wall > allow) || wall > 20.0 * allow,
+        None => wall > allow,
     }
 }
 
@@ -256,7 +279,7 @@ pub fn fresh_replay(path: &str, timeout: f64) -> FreshReplay {
                 };
             }
             Ok(None) => {
-                if t0.elapsed().as_secs_f64() > timeout {
+                if overdue(child.id(), 0.0, t0, timeout) {
                     let _ = child.kill();
                     let _ = child.wait();
                     return FreshReplay::Hung;
@@ -410,15 +433,18 @@ pub fn run_engine(plan: &RunPlan) -> EngineReport {
             if m != slots[k].last_marker {
                 slots[k].last_marker = m;
                 slots[k].last_change = Instant::now();
-            } else if slots[k].last_change.elapsed().as_secs_f64()
-                > (if slots[k].last_marker.contains("\"done\":true") {
-                    // all cases ran; the shard is writing its report (tens of millions of hashes on
-                    // a loaded machine took longer than the per-case allowance once)
+                slots[k].cpu_at_change = cpu_secs(slots[k].child.id()).unwrap_or(0.0);
+            } else if overdue(
+                slots[k].child.id(),
+                slots[k].cpu_at_change,
+                slots[k].last_change,
+                if slots[k].last_marker.contains("\"done\":true") {
+                    // all cases ran; the shard is writing its report (tens of millions of hashes)
                     plan.hang_secs.max(1200.0)
                 } else {
                     plan.hang_secs
-                })
-            {
+                },
+            ) {
                 let mut slot = slots.remove(k);
                 let _ = slot.child.kill();
                 let _ = slot.child.wait();
